@@ -8,6 +8,7 @@ from .values import *
 from .world import Unsupported
 
 RE = z3.ReSort(z3.StringSort())
+_KEEP = []
 MAXCP = 0x2FFFF
 
 
@@ -197,20 +198,159 @@ def language(facts, mode):
     return _CACHE[key]
 
 
+def group_info(facts):
+    """[(mandatory?, subtree)] per capture group, in group-number order.  A group is mandatory when it
+    sits in the top-level sequence (or inside mandatory groups) - then it participates in every match."""
+    out = {}
+    def walk(items, mandatory):
+        for it in items:
+            op, av = it[0], it[1]
+            if op == "SUBPATTERN":
+                gid = av[0]
+                if gid is not None:
+                    out[gid] = (mandatory, av[3])
+                walk(av[3], mandatory)
+            elif op in ("MAX_REPEAT", "MIN_REPEAT", "POSSESSIVE_REPEAT"):
+                lo, hi, sub = av
+                walk(sub, mandatory and lo >= 1)
+            elif op == "BRANCH":
+                for b in av[1]:
+                    walk(b, False)
+            elif op == "ATOMIC_GROUP":
+                walk(av, mandatory)
+            elif op in ("ASSERT", "ASSERT_NOT"):
+                walk(av[1], False)
+    walk(list(facts["tree"]), True)
+    return [out[i] for i in sorted(out)]
+
+
+MATCH_INFO = {}      # id of the loc term of a match object -> (facts, subject string term, is_bytes)
+
+
+def match_info(t):
+    """find the match-object allocation a V term refers to"""
+    seen = set()
+    stack = [t]
+    while stack:
+        x = stack.pop()
+        if x.get_id() in seen:
+            continue
+        seen.add(x.get_id())
+        if x.get_id() in MATCH_INFO:
+            return MATCH_INFO[x.get_id()]
+        if z3.is_app(x):
+            stack.extend(x.children())
+    return None
+
+
+def m_groups(I, st, args, kwargs, fr, k):
+    recv = args[0]
+    info = match_info(recv.t)
+    if info is None:
+        raise Unsupported("groups() on an unknown match object")
+    facts, subj, isb, loc = info
+    tr = Tr(facts)
+    wrap = mk_byt if isb else mk_str
+    outs = []
+    gi = group_info(facts)
+    vals = []
+    for n, (mand, sub) in enumerate(gi, 1):
+        g = z3.String(I.w.fresh(f"grp{n}"))
+        try:
+            if tree_size(sub) > 60:
+                raise Unsupported("big")
+            lang = tr.seq([x for x in sub if not (x[0] == "AT")])
+            c = z3.And(z3.InRe(g, lang), z3.Contains(subj, g))
+        except Unsupported:
+            c = z3.Contains(subj, g)
+        if mand:
+            st.fact(c)
+            vals.append(Sym(wrap(g)))
+        else:
+            isn = z3.Bool(I.w.fresh(f"grp{n}_unset"))
+            st.fact(z3.Or(isn, c))
+            vals.append(Sym(z3.If(isn, NONE, wrap(g))))
+    I.stats["builtins_used"].add("regex capture groups: each group is None (if optional) or a substring of the subject matching the group's own sub-pattern (over-approximation; priorities not modelled)")
+    return vals
+
+
+def b_match_groups(I, st, args, kwargs, fr, k):
+    return k(st, Tup(m_groups(I, st, args, kwargs, fr, k)))
+
+
+def b_match_group(I, st, args, kwargs, fr, k):
+    recv = args[0]
+    info = match_info(recv.t)
+    if info is None:
+        raise Unsupported("group() on an unknown match object")
+    facts, subj, isb, loc = info
+    idxs = [B_concrete(I, st, a) for a in args[1:]] or [0]
+    res = []
+    for i in idxs:
+        if i == 0:
+            g = z3.String(I.w.fresh("grp0"))
+            st.fact(z3.Contains(subj, g))
+            try:
+                st.fact(z3.InRe(g, Tr(facts).seq([x for x in facts["tree"] if x[0] != "AT"])))
+            except Unsupported:
+                pass
+            res.append(Sym((mk_byt if isb else mk_str)(g)))
+        elif isinstance(i, int):
+            vals = m_groups(I, st, args[:1], {}, fr, k)
+            if not (1 <= i <= len(vals)):
+                return I.raise_(st, "builtins.IndexError", "no such group")
+            res.append(vals[i - 1])
+        else:
+            raise Unsupported("group(name)")
+    return k(st, res[0] if len(res) == 1 else Tup(res))
+
+
+def b_match_span(I, st, args, kwargs, fr, k):
+    recv = args[0]
+    info = match_info(recv.t)
+    if info is None:
+        raise Unsupported("span() on an unknown match object")
+    facts, subj, isb, loc = info
+    a = z3.Int(I.w.fresh("span_a")); b = z3.Int(I.w.fresh("span_b"))
+    st.fact(z3.Or(z3.And(a == -1, b == -1), z3.And(0 <= a, a <= b, b <= z3.Length(subj))))
+    I.stats["builtins_used"].add("match.span(n): (-1,-1) or 0 <= start <= end <= len(subject) (over-approximation)")
+    return k(st, Tup([Sym(mk_int(a)), Sym(mk_int(b))]))
+
+
+def B_concrete(I, st, v):
+    return I.B.concrete_key(I, st, v)
+
+
+def tree_size(x):
+    if isinstance(x, (list, tuple)):
+        return 1 + sum(tree_size(i) for i in x)
+    return 0
+
+
+BIG = 400
+
+
 def call(I, st, rx, name, args, kwargs, fr, k):
     """pattern.match / fullmatch / search (string) -> match object or None (groups unmodelled)."""
     if name not in ("match", "fullmatch", "search"):
         raise Unsupported(f"regex method {name}")
     s = args[0]
     t = s.t
-    lang = language(rx.facts, name)
+    big = tree_size(rx.facts["tree"]) > BIG
+    lang = None if big else language(rx.facts, name)
     want_bytes = rx.facts.get("bytes", False)
     def ok(s2):
         sv = get_y(t) if want_bytes else get_s(t)
-        loc = I.alloc(s2, "builtins.object")
-        acc = z3.InRe(sv, lang)
+        loc = I.alloc(s2, "re.Match")
+        MATCH_INFO[loc.get_id()] = (rx.facts, sv, want_bytes, loc)
+        _KEEP.append(loc)
+        if big:
+            acc = z3.Bool(I.w.fresh("re_accepts"))
+            I.stats["builtins_used"].add("regex %r...: too large to translate, match outcome nondeterministic (over-approximation)" % rx.facts["pattern"][:40])
+        else:
+            acc = z3.InRe(sv, lang)
+            I.stats["builtins_used"].add("regex acceptance language of %r" % rx.facts["pattern"][:60])
         res = z3.If(acc, mk_ref(loc), NONE)
-        I.stats["builtins_used"].add("regex acceptance language of %r (groups not modelled)" % rx.facts["pattern"])
-        return k(s2, Sym(res))
+        return k(s2, Sym(res, hint="re.Match"))
     cond = is_byt(t) if want_bytes else is_str(t)
     return I.branch(st, cond, ok, lambda s2: I.raise_(s2, "builtins.TypeError", "regex on wrong type"))
